@@ -398,8 +398,11 @@ def run(tier):
         "Env_FaithfulAccounts: the accounts provider answers for the indices it is asked about",
         "Env_RelayShapes: a relay answers with an error, no response, or a response whose Data holds the block of "
         "the requested version (nil Data panics: property C16)",
-        "all collaborators are scripted fakes at the service's interfaces; the driver ends the job context when no "
-        "relay will reveal a block (production job contexts have no deadline: property C20)",
+        "fake-based families: all collaborators are scripted fakes at the service's interfaces; wired family: the real "
+        "block relay service and builder bid strategies (best, deadline) stand behind the proposer, the fakes are the "
+        "relays' builder clients, the configuration server (majordomo), the block relay's accounts provider and the "
+        "proposal provider; the driver ends the job context when no relay will reveal a block (production job contexts "
+        "have no deadline: property C20)",
         "a fake attributes an interface call to the Prepare / Propose whose context the code passed to it",
     ]
     thorough = tier == "thorough"
@@ -418,7 +421,9 @@ def run(tier):
             mcs += [pool.submit(vf.tlc_exhaustive, PID, "Proposer", "MC_Proposer_big.cfg", workers=6, timeout=2400),
                     pool.submit(vf.tlc_exhaustive, PID, "Proposer", "MC_Proposer_live_big.cfg", workers=2, timeout=1800),
                     pool.submit(vf.tlc_exhaustive, PID, "Proposer", "MC_Proposer_inst_big.cfg", workers=4, timeout=2400),
-                    pool.submit(vf.tlc_exhaustive, PID, "Proposer", "MC_Proposer_inst3.cfg", workers=4, timeout=2400)]
+                    pool.submit(vf.tlc_exhaustive, PID, "Proposer", "MC_Proposer_inst3.cfg", workers=4, timeout=2400),
+                    # two Proposes overlapping inside the auction component (both strategies)
+                    pool.submit(vf.tlc_exhaustive, PID, "Proposer", "MC_Proposer_auction_inst.cfg", workers=4, timeout=2400)]
         for f in mcs:
             v.add_mc(f.result())
         for f in ctl:
@@ -433,11 +438,14 @@ def run(tier):
                           "later duty; exhaustive); Prepare and Propose scheduled apart as the controller does - two duty objects "
                           "for one slot, same / other validator, every order of the calls (exhaustive), three duty objects with "
                           "calls one at a time in any order, and with two calls at a time interleaved at the interface calls and "
-                          "relays holding a Propose (seeded random walks); all of them (thorough; large families sampled) or a "
+                          "relays holding a Propose (seeded random walks); WIRED histories (the auction as a component: the real block "
+                          "relay service with the best / deadline builder bid strategy behind the proposer; two duties on one instance; "
+                          "per duty the block relay's account lookup ok / err x every configured relay bids / has no bid / fails / stays "
+                          "silent past the strategy's time-out x which bidders win; exhaustive); all of them (thorough; large families sampled) or a "
                           "seeded stratified sample (quick) replayed on the real proposer service, one instance per history, "
                           "every wait under a watchdog; one evaluation = one history; non-trivial = for some duty object "
                           "something was signed, or a proposal for another slot was obtained, or graffiti/node client/auction "
-                          "failed; distinct by scenario; history_shapes counts the scheduled histories by what they exercise")
+                          "failed, or the auction obtained no relay bids; distinct by scenario; history_shapes counts the scheduled histories by what they exercise")
     return v.finish()
 
 
